@@ -126,7 +126,7 @@ theorem live_rows_reachable {c : BankChunk} (hc : c ∈ Gen.bankChunks) {r : Ban
   obtain ⟨e, hl, hkc⟩ := chunk_country_known hok
   have hfit := row_bank_code_fits hok hr hne
   have hW := C01.table_wf e (Table.lookup_mem hl).1
-  obtain ⟨l, hps, _, _⟩ := hW.spec
+  obtain ⟨l, _, hps, _, _, _⟩ := hW.spec
   have hkc' := keyClasses_eq hps
   rw [hkc] at hkc'
   have hcls : c.cls = (e.bicLookup.getD [.bankCode]).flatMap (fun k => clsAt (expandSpec l) (e.range k)) := by
